@@ -145,7 +145,7 @@ pub fn prop() -> Prop {
         gen,
         check,
         panic_is_violation: false,
-        budget: (300_000, 10_000_000),
+        budget: (1800000, 60000000),
         extra: Some(extra),
         required: &["multi_line_prefixed", "blank_line_with_trimmed_prefix", "blank_line_with_leading_ws_prefix", "empty_prefix", "crlf_text"],
         known: None,
